@@ -132,6 +132,39 @@ def main():
             runs.append({'history': sha(json.dumps(sim.history)), 'halt': o['halt'],
                          'trap': o['trap'], 'ticks': o['ticks'], 'exc': (o['exc'] or {}).get('type'),
                          'hang': o['hang'], 'ncalls': len(sim.history)})
+        # run 4: the same module on a machine whose instructions are
+        # interleaved, under a seeded schedule, with those of a second machine
+        # that was built after it (another program, or the same one under
+        # another device script) - what one machine does must not depend on
+        # other machines living in the process
+        oth = job.get('other')
+        if oth is not None:
+            import random
+            with contextlib.redirect_stdout(sink):
+                oco = compile_source(oth['text'], oth.get('opt', 0), False, cache=False)
+                simA = Sim(ModInfo(co.bytes), job.get('script'), budget=40000)
+                simB = Sim(ModInfo(oco.bytes), oth.get('script'), budget=40000) if oco.ok else None
+                rnd = random.Random(oth.get('schedule', 0))
+                sims = [x for x in (simA, simB) if x is not None]
+
+                def alive(x):
+                    return not x.cpu.halted and x.exc is None and not x.hang \
+                        and x.cpu.pc < len(x.module.code)
+                switches = 0
+                while alive(simA):
+                    live = [x for x in sims if alive(x)]
+                    x = rnd.choice(live)
+                    switches += 1
+                    for _ in range(rnd.choice((1, 1, 2, 3, 8, 40))):
+                        if not alive(x):
+                            break
+                        x.guarded(x.machine.tick)
+                o = simA.outcome()
+                halt = o['halt'] if simA.cpu.halted else 'END_OF_CODE'
+            runs.append({'history': sha(json.dumps(simA.history)), 'halt': halt,
+                         'trap': o['trap'], 'ticks': o['ticks'], 'exc': (o['exc'] or {}).get('type'),
+                         'hang': o['hang'], 'ncalls': len(simA.history)})
+            out['interleave_switches'] = switches
         out['runs'] = runs
     json.dump(out, sys.stdout)
 
